@@ -146,14 +146,22 @@ def run_c04(tier, replay=None):
                 d.append({"field": r["field"], "class": cls})
             reqs.append({"id": len(meta), "json": json.dumps(model), "want_out": True})
             meta.append(("metakeys", d))
-        # (2) material variants (flattened untagged enum)
+        # (2) material variants (flattened untagged enum): both variants, and every field at the values a skip rule or a
+        # load default could single out (0, 1, the documented defaults 1000 / 800, another value; optional field absent)
         mats = []
-        for n, (kind, vd) in enumerate(itertools.product(["detailed", "resistance"], [None, 12.0])):
-            m = {"id": U(2000 + n), "name": "M%d" % n}
-            m.update({"conductivity": 0.5, "density": 900.0, "specific_heat": 1000.0} if kind == "detailed" else {"resistance": 0.18})
+        n = 0
+        for cond, dens, cp, vd in itertools.product([0.0, 1.0, 0.5], [0.0, 1.0, 900.0], [0.0, 1.0, 800.0, 1000.0, 1234.5], [None, 0.0, 1.0, 12.0]):
+            m = {"id": U(2000 + n), "name": "M%d" % n, "conductivity": cond, "density": dens, "specific_heat": cp}
             if vd is not None:
                 m["vapour_diff"] = vd
             mats.append(m)
+            n += 1
+        for r, vd in itertools.product([0.0, 1.0, 0.18], [None, 0.0, 12.0]):
+            m = {"id": U(2000 + n), "name": "M%d" % n, "resistance": r}
+            if vd is not None:
+                m["vapour_diff"] = vd
+            mats.append(m)
+            n += 1
         model = {"meta": copy.deepcopy(base["Meta"]), "cons": {"materials": mats},
                  "overrides": {"walls": {U(2): {"u_value": 0.5}, U(3): {}}, "windows": {U(4): {"u_value": 1.5, "f_shobst": 0.8}, U(5): {"f_shobst": 0.5}}}}
         reqs.append({"id": len(meta), "json": json.dumps(model), "want_out": True})
